@@ -190,6 +190,12 @@ func fFloat(n float64, bitSize int) string {
 	}
 }
 
+// QuoteString returns the string as a double-quoted proto string literal,
+// escaped so that parsing the literal gives back the same bytes.
+func QuoteString(in string) string {
+	return prototextString(in)
+}
+
 func prototextString(in string) string {
 	outputASCII := true
 	out := make([]byte, 0, len(in)+2)
